@@ -81,6 +81,19 @@ Definition g_tag_payload (raw : bytes) : result (bytes * bytes) :=
   | Err e => Err e
   end.
 
+(* ---- Commit.Verify / Tag.Verify, the OpenPGP check abstracted as
+   [V payload signature].  Commit.Verify refuses a Signature that holds more
+   than one armored block, then ALWAYS checks Commit.Signature (the "gpgsig"
+   header) against EncodeWithoutSignature — also for a commit of a SHA-256
+   repository, whose signature git keeps in "gpgsig-sha256"
+   (Commit.SignatureSHA256 is never looked at).  Tag.Verify checks
+   Tag.Signature. ---- *)
+Definition commit_verify (V : bytes -> bytes -> bool) (src : bytes) (same_hash : bool) (c : commit) : bool :=
+  if Nat.ltb 1 (count_sig_blocks (c_sig c)) then false
+  else V (commit_payload src same_hash c) (c_sig c).
+Definition tag_verify (V : bytes -> bytes -> bool) (src : bytes) (same_hash : bool) (t : tag) : bool :=
+  V (tag_payload src same_hash t) (t_sig t).
+
 (* ---- mutations of exported fields after Decode (harness cmd/c03) ---- *)
 Inductive imut := IName (v : bytes) | IEmail (v : bytes) | ITs (n : Z) | ITz (n : Z) | INsec.
 Definition mut_ident (m : imut) (i : ident) : ident :=
@@ -156,6 +169,22 @@ Definition c03_tmut (raw : string) (m : tmut) : out :=
     let t' := mut_tag m t in
     let sh := match m with THash => false | _ => true end in
     OOk [OBool (tag_matches_source b sh t'); OBytes (tag_payload b sh t')]
+  | Err e => out_derr e
+  end.
+(* op=cverify / tverify: a real OpenPGP key accepts exactly the pair
+   (signed payload, good signature) *)
+Definition c03_cverify (raw signed good : string) : out :=
+  let b := unhex raw in
+  let V := fun p s => beqb p (unhex signed) && beqb s (unhex good) in
+  match decode_commit b with
+  | Ok c => OOk [OBool (commit_verify V b true c)]
+  | Err e => out_derr e
+  end.
+Definition c03_tverify (raw signed good : string) : out :=
+  let b := unhex raw in
+  let V := fun p s => beqb p (unhex signed) && beqb s (unhex good) in
+  match decode_tag b with
+  | Ok t => OOk [OBool (tag_verify V b true t)]
   | Err e => out_derr e
   end.
 Definition c03_psb (raw : string) : out :=
